@@ -20,6 +20,8 @@ CONSTANT DZ = %d
 CONSTANT Base = %d
 CONSTANT LoDigits = %d
 CONSTANT Emit = TRUE
+CONSTANT Sample = %d
+CONSTANT Seed = %d
 INVARIANT StaticOK
 INVARIANT WorldOK
 CHECK_DEADLOCK FALSE
@@ -42,8 +44,8 @@ def run(chk, replay):
     else:
         plans = [((2, 2, 3), 2, 6, None), ((2, 3, 2), 2, 6, None), ((3, 2, 2), 2, 6, None),
                  ((2, 2, 2), 3, 4, None), ((2, 2, 2), 4, 4, None),
-                 ((2, 2, 3), 3, 6, "num=15000"), ((2, 3, 2), 3, 6, "num=15000"), ((3, 2, 2), 3, 6, "num=15000"),
-                 ((3, 3, 3), 2, 13, "num=5000")]
+                 ((2, 2, 3), 3, 6, 15000), ((2, 3, 2), 3, 6, 15000), ((3, 2, 2), 3, 6, 15000),
+                 ((3, 3, 3), 2, 13, 5000)]
         frac = {2: 1.0, 3: 1.0, 4: 0.4}
     run_worlds(chk, replay, "MarchCubes", "MeshTrace", "c05-replay", ("mcu", "mco"), plans, frac,
-               lambda d, b, l: CFG % (d[0], d[1], d[2], b, l), "nt")
+               lambda d, b, l, n, sd: CFG % (d[0], d[1], d[2], b, l, n, sd), "nt")
